@@ -7,7 +7,7 @@ from harness import core
 from harness.driver import Driver, DriverError
 
 sys.path.insert(0, '/repo')
-from pydbml.classes import Column, Enum, EnumItem, Index, Expression, Project, Reference, Table, TableGroup  # noqa: E402
+from pydbml.classes import Column, Enum, EnumItem, Index, Expression, Note, Project, Reference, Table, TableGroup  # noqa: E402
 from pydbml.database import Database  # noqa: E402
 import pydbml.exceptions as pex  # noqa: E402
 from harness.observe import StickyNote, classify  # noqa: E402
@@ -156,6 +156,11 @@ def apply_op(w, op, variant=0):
         return 'raised:' + type(e).__name__, None
 
 
+def before_refs(w, before):
+    """the references contained before the step (the rejected step changed nothing, so: now)"""
+    return list(w.db.refs)
+
+
 def keys_distinct(w):
     keys = []
     for t in w.db.tables:
@@ -165,11 +170,38 @@ def keys_distinct(w):
     return len(keys) == len(set(keys))
 
 
+def describe_ref(r):
+    """what a reference says, by names (schema-qualified): two references are "identical" when this agrees
+    (the comment and the inline flag do not count)"""
+    def side(cols):
+        return [((c.table.full_name if c.table is not None else None), c.name, str(c.type), c.pk, c.unique, c.not_null) for c in cols]
+    return (r.type, r.name, r.on_update, r.on_delete, side(r.col1), side(r.col2))
+
+
 def oracle_step(w, op, outcome, ret, before):
     """Model-free checks after one step -> list of (what, reason)."""
     db = w.db
     fails = []
     kind = op[1] if op[0] in ('add', 'delete') else None
+    if kind == 'ref' and op[0] == 'add' and outcome == 'rejected':
+        obj = w.R[op[2]]
+        contained = any(obj is x for x in before_refs(w, before))
+        try:
+            ident = any(describe_ref(x) == describe_ref(obj) for x in before_refs(w, before))
+            no_table = not any(c.table is not None and any(c.table is t for t in db.tables) for c in list(obj.col1) + list(obj.col2))
+            if not contained and not ident and not no_table:
+                fails.append(('a reference is refused as a duplicate although no contained reference has the same endpoints '
+                              '(schema-qualified table, column), kind, name and actions', None))
+        except Exception:  # noqa: BLE001
+            pass
+    if kind == 'ref' and op[0] == 'delete' and outcome == 'ok' and ret is not None:
+        obj = w.R[op[2]]
+        try:
+            if ret is not obj and describe_ref(ret) != describe_ref(obj):
+                fails.append(('delete removed a reference that is neither the argument nor identical to it (endpoints by '
+                              'schema-qualified names, kind, name, actions)', None))
+        except Exception:  # noqa: BLE001
+            pass
     # track expectations from outcomes
     if outcome == 'ok' and op[0] == 'add' and kind != 'other':
         obj = w.objs(kind)[op[2]]
@@ -421,7 +453,20 @@ def table_hist_job(job):
                         subj.append(det[0] if det else Expression('x+1'))
                     else:
                         subj.append(Expression('x+1'))
-                ix = Index(subj, name=f'i{len(idxs)}')
+                if idxs and rng.random() < 0.35:
+                    # a twin of an earlier index: same subjects and name, another note / comment / flag - or none (a full twin)
+                    src = rng.choice(idxs)
+                    subj = list(src.subjects)
+                    ix = Index(subj, name=src.name, unique=src.unique, pk=src.pk, note=src.note.text or None, comment=src.comment)
+                    what = rng.choice(['note', 'comment', 'unique', 'none'])
+                    if what == 'note':
+                        ix.note = Note(f'twin note {len(idxs)}')
+                    elif what == 'comment':
+                        ix.comment = f'twin comment {len(idxs)}'
+                    elif what == 'unique':
+                        ix.unique = not ix.unique
+                else:
+                    ix = Index(subj, name=f'i{len(idxs)}')
                 idxs.append(ix)
                 before = dump()
                 op = ['add_index', [cidx(s) if isinstance(s, Column) else 'expr' for s in subj]]
@@ -446,8 +491,12 @@ def table_hist_job(job):
                     if not member:
                         fails.append('delete_index of an absent index succeeded')
                     else:
-                        if not (got is idxs[k] or got.name == idxs[k].name) or got.table is not None:
-                            fails.append('delete_index returned an index that is not (equal to) the argument, or left it attached')
+                        def full_eq(a, b):
+                            return (len(a.subjects) == len(b.subjects) and all(x is y or (not isinstance(x, Column) and str(x) == str(y)) for x, y in zip(a.subjects, b.subjects))
+                                    and (a.name, a.unique, a.type, a.pk, a.note.text, a.comment) == (b.name, b.unique, b.type, b.pk, b.note.text, b.comment))
+                        # the member that goes is the argument itself, or an earlier member equal to it in EVERY attribute
+                        if not (got is idxs[k] or full_eq(got, idxs[k])) or got.table is not None:
+                            fails.append('delete_index removed an index that is not the argument nor equal to it in every attribute (note, comment, flags), or left it attached')
                         exp_idx.pop(cidx_in(exp_idx, got))
             else:
                 nm = rng.choice(['a', 'b', 'c', 'zz'])
